@@ -179,6 +179,9 @@ structure Leader (β : Type) where
   data : Option (Data β)
   /-- the leader's input holds an AOF writer open at the right end -/
   wopen : Bool
+  /-- stream bytes the leader's input appends while a stream reader of this session is
+      open (after its `META` announcement): a live leader keeps growing -/
+  tail : List β
 
 def Leader.hasSegs (L : Leader β) (d : Data β) : Bool := !d.bytes.isEmpty || L.wopen
 
@@ -213,7 +216,7 @@ def Leader.sendData (L : Leader β) (off : Int) (ch : List Nat) : Reply β :=
   | none => ⟨[ctl .clear], .err, ch⟩
   | some d =>
     if L.inAof d off then
-      let r := chop ch (d.bytes.drop (off - (d.base : Int)).toNat)
+      let r := chop ch (d.bytes.drop (off - (d.base : Int)).toNat ++ L.tail)
       ⟨⟨.info, "", true, off, -1, []⟩ :: conts off r.1, .blocks, r.2⟩
     else match d.snap with
       | none => ⟨[ctl .clear], .err, ch⟩
